@@ -73,7 +73,7 @@ def tlc_cases(run, scratch, name, module, cfg=None, workers=8, timeout=900, env=
 
 
 def validate_pure_trace(run, scratch, name, module, events, canary_field="got", cfg=None, workers=8,
-                        timeout=900, signature=None, env=None, xmx="6g", canary_pred=None):
+                        timeout=900, signature=None, env=None, xmx="6g", canary_pred=None, corrupt=None):
     """B3 for independent calls: each event is checked against the spec's Conforms(ev).
 
     A corrupted copy of an event is appended as canary and must be the only MISMATCH that is
@@ -81,7 +81,10 @@ def validate_pure_trace(run, scratch, name, module, events, canary_field="got", 
     if not events:
         raise ToolError(f"{name}: empty trace")
     canary = copy.deepcopy(events[_canary_pick(events, canary_pred)])
-    canary[canary_field] = _corrupt(canary[canary_field])
+    if corrupt:
+        canary = corrupt(canary)
+    else:
+        canary[canary_field] = _corrupt(canary[canary_field])
     canary["canary"] = 1
     allev = events + [canary]
     path = scratch.path(f"trace-{name}.ndjson")
